@@ -526,7 +526,7 @@ func runCase(w *tr.Writer, seed uint64, idx int, focus string) {
 			w.Fail(e.line.Name, e.line.Args[0], strings.Join(e.line.Args[2:], " "))
 		}
 	}
-	for _, k := range []string{"lifecycle", "fd", "inbound", "outbound", "udp", "fault"} {
+	for _, k := range []string{"lifecycle", "fd", "inbound", "outbound", "udp", "fault", "count", "fuel"} {
 		w.Obs(tr.L("chk", k, "1"))
 	}
 	tags := map[string]bool{}
